@@ -699,7 +699,19 @@ pub fn cont_case_strategy() -> BoxedStrategy<ContCase> {
             (Just(elem), proptest::collection::vec(inner, n..=n).prop_map(Val::Seq), Just(s), Just(d), Just(f))
         })
         .prop_map(|(elem, xs, src, dst, form)| ContCase { elem, elem2: None, xs, src, dst, form, holder: 0 });
-    (prop_oneof![8 => seqs, 4 => anyseq, 6 => maps, 4 => bytes, 1 => rows], prop_oneof![3 => Just(0u8), 1 => Just(1u8), 2 => Just(2u8)])
+    // (6) elements without any size in memory but with an encoding: compiled unit struct, empty struct, one-constructor enum
+    let zst_tys: Vec<Ty> = crate::props::derived::batch().specials.iter().filter(|d| vmodel::declgen::ZST_DECLS.contains(&d.name.as_str()) && crate::props::derived::compiled_ok(d)).cloned().map(Ty::Adt).collect();
+    let zsts = if zst_tys.is_empty() {
+        bytes.clone().boxed()
+    } else {
+        (prop::sample::select(zst_tys), prop::sample::select(vec![Cont::Vec, Cont::Slice, Cont::Array]), prop::sample::select(vec![Cont::Vec, Cont::Array, Cont::LinkedList]), prop::sample::select(vec![Form::Known, Form::Known, Form::RefUnknown]), prop::sample::select(vec![0usize, 1, 2, 3, 16, 17]))
+            .prop_map(|(elem, src, dst, form, n)| {
+                let one = if matches!(&elem, Ty::Adt(d) if matches!(d.body, vmodel::DeclBody::Enum { .. })) { Val::Variant(0, vec![]) } else { Val::Rec(vec![]) };
+                ContCase { elem, elem2: None, xs: Val::Seq(vec![one; n]), src, dst, form, holder: 0 }
+            })
+            .boxed()
+    };
+    (prop_oneof![8 => seqs, 4 => anyseq, 6 => maps, 4 => bytes, 1 => rows, 1 => zsts], prop_oneof![3 => Just(0u8), 1 => Just(1u8), 2 => Just(2u8)])
         .prop_map(|(mut c, holder)| {
             c.holder = holder;
             c
